@@ -79,6 +79,21 @@ Definition clean_exit (s : lst) : bool :=
 Definition outcome_ok (b : beh) (killed : bool) (f : pfinal) : bool :=
   final_meets (demanded b) f || (killed && final_dead f).
 
+(* "Every invocation terminates - including when the child process dies without reporting a
+   result": the caller learns of the death through the exception it gets, so that report may
+   not depend on WHERE the child died (before sending anything, inside the callee, in the
+   middle of writing a large result, killed from outside ...).  `ref` is the report for the
+   plainest death - the child exits before sending anything; every other unreported death must
+   be reported by an exception of the same class.  (Not a death: the child reported and the
+   outcome got through; the message arrived but cannot be unpickled - b_unp.) *)
+Definition child_died_unreported (b : beh) (killed : bool) (f : pfinal) : bool :=
+  negb (b_unp b) && final_dead f && negb (callee_reports b && final_meets (demanded b) f) &&
+  (killed || negb (callee_reports b)).
+Definition same_report (ref f : pfinal) : bool :=
+  match ref, f with FRaise (XCls a), FRaise (XCls c) => exn_eqb a c | _, _ => false end.
+Definition report_uniform (ref : pfinal) (b : beh) (killed : bool) (f : pfinal) : bool :=
+  negb (child_died_unreported b killed f) || same_report ref f.
+
 (* what the statement demands of a state in which the awaiting task has got its outcome *)
 Definition spec_ok (b : beh) (s : lst) : bool :=
   match p_stat (ps s) with
